@@ -820,6 +820,21 @@ def p_active_space(ctx: Ctx, scale: int):
     h = np.array([[-1.0, 0.2, 0.1], [0.2, -0.5, 0.3], [0.1, 0.3, 0.4]])
     chem = slater.random_eri_chem(__import__("random").Random(14), 3)
     active_space_case(ctx, 3, 0.5, h, chem, [(2, 0, (2, 2, [1, 2]))], "witness:zero-core")
+    # always-run, seed-independent section: EVERY ordering of an explicit active list over a contiguous block of 4 orbitals
+    # (n = 4: the whole space; thorough also n = 5 with one core orbital below the block).  A random shuffle hits a particular
+    # ordering class (first = min and last = max, middle exchanged; reversed; rotated ...) with probability ~1e-3 per case,
+    # which is not a detection; orderings are a dimension of the quantifier ("any explicit active list").
+    import itertools
+
+    det = __import__("random").Random(1409)
+    for n, lo in ([(4, 0)] if ctx.quick() else [(4, 0), (5, 1)]):
+        h = slater.random_symmetric(det, n)
+        chem = slater.random_eri_chem(det, n)
+        for perm in itertools.permutations(range(lo, lo + 4)):
+            ae = 2 if sum(perm[:2]) % 2 else 4
+            C = slater.random_unitary(det, n, real=True) if perm[0] == lo + 1 else None
+            active_space_case(ctx, n, 0.25, h, chem, [(2 * lo + ae, 0, (ae, 4, list(perm)))], "all-orderings-of-a-contiguous-block", C=C)
+            ctx.count("active_space_orderings", f"n={n}")
     sizes = ([2, 3, 3, 1, 3, 4] if ctx.quick() else [2, 3, 3, 4, 4, 1]) * (ctx.n(6, 24) * scale)
     for n in sizes:
         h = slater.random_symmetric(rng, n)
